@@ -27,7 +27,8 @@ pub fn prop() -> Prop {
          ExecutableDocument::parse + validate against the text's own schema when valid (else a fixed schema), \
          parse_mixed_validate, to_string of every result, full-introspection partial_execute on valid schemas, and for \
          every diagnostic Display, Debug with forced ANSI colours, to_report, to_json + serde, line_column_range: all \
-         return (no panic, no signal). Every DiagnosticList is sorted by Option<(FileId, offset)> (unlocated first), \
+         return (no panic, no signal; in lists of more than 160 diagnostics the renderings cover a spread sample of ~64, \
+         to_json and line_column_range cover all). Every DiagnosticList is sorted by Option<(FileId, offset)> (unlocated first), \
          the key DiagnosticList::sort uses. Chains at >= 2x the relevant limit give Err with a recursion-limit style \
          diagnostic. Non-trivial: a partial schema or document was built and the case has a chain/cycle or >= 1 \
          diagnostic; distinct by text.",
@@ -35,7 +36,7 @@ pub fn prop() -> Prop {
     .random(
         "adversaries",
         check,
-        |t| if t == Tier::Quick { 36_000 } else { 900_000 },
+        |t| if t == Tier::Quick { 24_000 } else { 600_000 },
         |t| if t == Tier::Quick { 400 } else { 700 },
     )
     .text(check_plain_text)
@@ -142,6 +143,7 @@ pub struct Obs {
     pub problems: Vec<(String, String)>,
     pub diagnostics: usize,
     pub lists: usize,
+    pub rendered: usize,
     pub unlocated: usize,
     pub ansi_seen: bool,
     pub limit_diag: bool,
@@ -150,6 +152,7 @@ pub struct Obs {
     pub mixed_ok: Option<bool>,
     pub mixed_limit_diag: bool,
     pub introspected: bool,
+    pub deep_introspection_executed: bool,
     pub introspection_other: Option<&'static str>,
     pub multi_file_list: bool,
 }
@@ -164,14 +167,21 @@ fn is_limit_message(m: &str) -> bool {
     m.contains("too much recursion") || m.contains("too much nesting") || m.contains("recursion limit")
 }
 
+/// Above this many diagnostics in one list, the renderings are done for a spread sample only
+/// (first 24, last 8, every k-th; rendering one diagnostic costs time proportional to the labelled
+/// lines); `to_json` and `line_column_range` still cover every diagnostic.
+const RENDER_ALL_UP_TO: usize = 160;
+
 /// Render and inspect one diagnostic list. Returns whether it contains a recursion-limit style
-/// diagnostic.
-fn inspect_list(entry: &'static str, list: &DiagnosticList, obs: &mut Obs) -> bool {
+/// diagnostic. `render == false`: order and messages only (the same diagnostics are rendered
+/// through another entry point).
+fn inspect_list(entry: &'static str, list: &DiagnosticList, obs: &mut Obs, render: bool) -> bool {
     obs.lists += 1;
     let mut limit = false;
     let mut prev: Option<Option<(apollo_compiler::parser::FileId, usize)>> = None;
     let mut files = std::collections::BTreeSet::new();
     let total = list.len();
+    let stride = total / 32 + 1;
     for (i, d) in list.iter().enumerate() {
         obs.diagnostics += 1;
         let loc = d.error.location();
@@ -202,15 +212,8 @@ fn inspect_list(entry: &'static str, list: &DiagnosticList, obs: &mut Obs) -> bo
         if is_limit_message(&msg) {
             limit = true;
         }
-        // rendering: plain, coloured (Debug and explicit report), JSON, line/column
-        let plain = d.to_string();
-        let coloured = format!("{:?}", d);
-        let report = d.to_report(Color::StderrIsTerminal).into_string();
-        if coloured.contains("\u{1b}[") || report.contains("\u{1b}[") {
-            obs.ansi_seen = true;
-        }
-        if plain.is_empty() {
-            obs.problems.push((format!("empty-rendering|{}", entry), format!("{}: Display of diagnostic #{} is empty", entry, i)));
+        if !render {
+            continue;
         }
         let json = d.to_json();
         match serde_json::to_string(&json) {
@@ -227,15 +230,32 @@ fn inspect_list(entry: &'static str, list: &DiagnosticList, obs: &mut Obs) -> bo
                 obs.problems.push((format!("line-column-zero|{}", entry), format!("{}: line_column_range of diagnostic #{} starts at {:?}", entry, i, r.start)));
             }
         }
+        let sampled = total <= RENDER_ALL_UP_TO || i < 24 || i + 8 >= total || i % stride == 0;
+        if !sampled {
+            continue;
+        }
+        obs.rendered += 1;
+        // rendering: plain, coloured (Debug and explicit report)
+        let plain = d.to_string();
+        let coloured = format!("{:?}", d);
+        let report = d.to_report(Color::StderrIsTerminal).into_string();
+        if coloured.contains("\u{1b}[") || report.contains("\u{1b}[") {
+            obs.ansi_seen = true;
+        }
+        if plain.is_empty() {
+            obs.problems.push((format!("empty-rendering|{}", entry), format!("{}: Display of diagnostic #{} is empty", entry, i)));
+        }
     }
     if files.len() > 1 {
         obs.multi_file_list = true;
     }
-    // the list-level renderings
-    let all = list.to_string();
-    let _ = format!("{:?}", list);
-    if total > 0 && all.is_empty() {
-        obs.problems.push((format!("empty-rendering|{}", entry), format!("{}: Display of a list of {} diagnostics is empty", entry, total)));
+    if render && total <= RENDER_ALL_UP_TO {
+        // the list-level renderings
+        let all = list.to_string();
+        if total > 0 && all.is_empty() {
+            obs.problems.push((format!("empty-rendering|{}", entry), format!("{}: Display of a list of {} diagnostics is empty", entry, total)));
+        }
+        let _ = format!("{:?}", list);
     }
     if limit {
         obs.limit_diag = true;
@@ -297,7 +317,7 @@ pub fn run_all(case: &Case) -> Obs {
         match ast::Document::parse(full.as_str(), "doc.graphql") {
             Ok(d) => d,
             Err(e) => {
-                inspect_list("ast::Document::parse", &e.errors, &mut obs);
+                inspect_list("ast::Document::parse", &e.errors, &mut obs, true);
                 e.partial
             }
         }
@@ -312,7 +332,7 @@ pub fn run_all(case: &Case) -> Obs {
         });
         entry!(obs, "validate_standalone_executable", {
             if let Err(l) = doc.validate_standalone_executable() {
-                inspect_list("validate_standalone_executable", &l, &mut obs);
+                inspect_list("validate_standalone_executable", &l, &mut obs, true);
             }
         });
         entry!(obs, "to_schema_validate", {
@@ -321,7 +341,7 @@ pub fn run_all(case: &Case) -> Obs {
                     use_schema(&s);
                 }
                 Err(e) => {
-                    inspect_list("to_schema_validate", &e.errors, &mut obs);
+                    inspect_list("to_schema_validate", &e.errors, &mut obs, false);
                     use_schema(&e.partial);
                 }
             }
@@ -334,7 +354,7 @@ pub fn run_all(case: &Case) -> Obs {
         match Schema::parse(schema_text, "schema.graphql") {
             Ok(s) => s,
             Err(e) => {
-                inspect_list("Schema::parse", &e.errors, &mut obs);
+                inspect_list("Schema::parse", &e.errors, &mut obs, true);
                 e.partial
             }
         }
@@ -356,7 +376,7 @@ pub fn run_all(case: &Case) -> Obs {
                 }
                 Err(e) => {
                     entry!(obs, "Schema::validate/diagnostics", {
-                        inspect_list("Schema::validate", &e.errors, &mut obs);
+                        inspect_list("Schema::validate", &e.errors, &mut obs, true);
                         use_schema(&e.partial);
                     });
                 }
@@ -375,19 +395,19 @@ pub fn run_all(case: &Case) -> Obs {
                     use_schema(&v);
                 }
                 Err(e) => {
-                    inspect_list("Schema::builder/validate", &e.errors, &mut obs);
+                    inspect_list("Schema::builder/validate", &e.errors, &mut obs, false);
                     use_schema(&e.partial);
                 }
             },
             Err(e) => {
-                inspect_list("Schema::builder/build", &e.errors, &mut obs);
+                inspect_list("Schema::builder/build", &e.errors, &mut obs, false);
                 use_schema(&e.partial);
             }
         }
         // two sources in one builder: diagnostics of both files in one list
         let b2 = Schema::builder().ignore_builtin_redefinitions().parse(schema_text, "first.graphql").parse(exec_text, "second.graphql");
         if let Err(e) = b2.build() {
-            inspect_list("Schema::builder/two-files", &e.errors, &mut obs);
+            inspect_list("Schema::builder/two-files", &e.errors, &mut obs, true);
         }
     });
 
@@ -404,7 +424,7 @@ pub fn run_all(case: &Case) -> Obs {
             Err(l) => {
                 obs.mixed_ok = Some(false);
                 entry!(obs, "parse_mixed_validate/diagnostics", {
-                    obs.mixed_limit_diag = inspect_list("parse_mixed_validate", &l, &mut obs);
+                    obs.mixed_limit_diag = inspect_list("parse_mixed_validate", &l, &mut obs, true);
                 });
             }
         }
@@ -416,7 +436,7 @@ pub fn run_all(case: &Case) -> Obs {
         match ExecutableDocument::parse(against, exec_text, "exec.graphql") {
             Ok(d) => d,
             Err(e) => {
-                inspect_list("ExecutableDocument::parse", &e.errors, &mut obs);
+                inspect_list("ExecutableDocument::parse", &e.errors, &mut obs, true);
                 e.partial
             }
         }
@@ -437,7 +457,7 @@ pub fn run_all(case: &Case) -> Obs {
                 }
                 Err(e) => {
                     entry!(obs, "ExecutableDocument::validate/diagnostics", {
-                        inspect_list("ExecutableDocument::validate", &e.errors, &mut obs);
+                        inspect_list("ExecutableDocument::validate", &e.errors, &mut obs, true);
                         use_executable(&e.partial);
                     });
                 }
@@ -450,8 +470,12 @@ pub fn run_all(case: &Case) -> Obs {
         entry!(obs, "introspection::partial_execute", introspect(&mut obs, v));
         if case.family == "introspection-nesting" {
             entry!(obs, "introspection::check_max_depth", {
-                let _ = crate::apollo::introspect::check_max_depth(v, exec_text);
-                let _ = crate::apollo::introspect::partial_execute(v, exec_text);
+                use crate::apollo::introspect::DepthObs;
+                // execution is only for operations the depth check lets through (as documented)
+                if let DepthObs::Verdict { ok: true, .. } = crate::apollo::introspect::check_max_depth(v, exec_text) {
+                    let _ = crate::apollo::introspect::partial_execute(v, exec_text);
+                    obs.deep_introspection_executed = true;
+                }
             });
         }
     }
@@ -459,6 +483,11 @@ pub fn run_all(case: &Case) -> Obs {
 }
 
 fn panic_sig(entry: &str, msg: &str, loc: &str) -> String {
+    // ariadne 0.6.0 write.rs:267 (header of a source group other than the report's own source, in
+    // byte-index mode): one root cause whatever the entry point and the text of the line
+    if loc.contains("ariadne") && loc.ends_with("write.rs:267") && msg.contains("is not a char boundary") {
+        return "C21|panic|diagnostic-rendering|ariadne-secondary-source-header-char-boundary".to_string();
+    }
     format!("C21|panic|{}|{}", entry, normalise_panic(msg, loc))
 }
 
@@ -488,6 +517,9 @@ pub fn check_case(case: &Case, ctx: &mut Ctx) -> Outcome {
     }
     if obs.introspected {
         ctx.class("introspected");
+    }
+    if obs.deep_introspection_executed {
+        ctx.class("nested-introspection-executed");
     }
     if let Some(c) = obs.introspection_other {
         ctx.class(c);
